@@ -111,7 +111,7 @@ impl GenCfg {
                 _ => rng.range(600, 1300),
             } as usize;
             if max_live >= 600 {
-                steps_override = Some(rng.range(1400, 2600) as usize);
+                steps_override = Some(rng.range(2000, 4000) as usize);
             }
             steps = rng.range(300, 1500) as usize;
             if let Some(s) = steps_override {
@@ -340,6 +340,9 @@ impl GenCfg {
                 }
                 w[K::ObsPull as usize] = w[K::ObsPull as usize].min(4);
             }
+            if shape == 2 && max_live >= 600 {
+                w[K::AppendValue as usize] *= 3;
+            }
             if shape == 2 {
                 // a deep chain is cut by every move or detach on its path: let it grow first
                 w[K::Insert as usize] /= 6;
@@ -386,6 +389,9 @@ pub struct Gen {
     pub cfg: GenCfg,
     pub next_key: Key,
     pub fork_active: u32,
+    /// follow-up ops queued by an earlier op (e.g. different ways of removing a node that was
+    /// left in the last generation of its slot)
+    pub pending: Vec<Op>,
 }
 
 impl Gen {
@@ -394,6 +400,7 @@ impl Gen {
             cfg,
             next_key: 1,
             fork_active: 0,
+            pending: Vec::new(),
         }
     }
     fn key(&mut self) -> Key {
@@ -515,6 +522,9 @@ impl Gen {
     }
 
     pub fn next_op(&mut self, rng: &mut Rng, m: &Model) -> Op {
+        if !self.pending.is_empty() {
+            return self.pending.remove(0);
+        }
         let live_n = m.n_live;
         let mut w = self.cfg.w;
         let z = |w: &mut [u32; NK], ks: &[K]| {
@@ -615,10 +625,40 @@ impl Gen {
                 let x = self.pick_node(rng, m, false).unwrap();
                 let f = m.free_effective().len() as u32;
                 let rec = m.recycles[m.n(x).slot - 1];
+                let k_new = self.key(); // the key this op defines
                 let n = if f == 0 && rec < 32_767 && rng.chance(self.cfg.p_boundary as u64 / 3, 100) {
                     // stop exactly in the slot's last generation: the node stays live there, and
-                    // whatever removes it later (remove, remove_subtree, clear, a later cycle with
-                    // other slots free) is the removal that retires the slot
+                    // whatever removes it later is the removal that retires the slot. Half of the
+                    // time that removal is scripted right away, in one of the ways that differ in
+                    // the free-list state and in the removing call.
+                    if rng.coin() {
+                        let others: Vec<Key> = m.live_keys().into_iter().filter(|k| *k != x).collect();
+                        let mut script: Vec<Op> = match rng.below(4) {
+                            // as the root of a subtree of several nodes
+                            0 => {
+                                let (c1, c2) = (self.key(), self.key());
+                                vec![
+                                    Op::AppendValue { p: k_new, k: c1, val, slow: false },
+                                    Op::AppendValue { p: c1, k: c2, val, slow: false },
+                                    Op::RemoveSubtree { x: k_new },
+                                ]
+                            }
+                            // as a descendant inside a removed subtree
+                            1 if !others.is_empty() => {
+                                let p = *rng.pick(&others);
+                                vec![Op::Insert { kind: Kind::Append, checked: true, a: p, b: k_new }, Op::RemoveSubtree { x: p }]
+                            }
+                            // with another slot already waiting in the free list
+                            2 if !others.is_empty() => vec![Op::Remove { x: *rng.pick(&others) }, Op::Remove { x: k_new }],
+                            _ => vec![Op::Remove { x: k_new }],
+                        };
+                        // a few allocations afterwards drain the free list down to the retired slot
+                        for _ in 0..3 {
+                            let k = self.key();
+                            script.push(Op::New { k, val });
+                        }
+                        self.pending = script;
+                    }
                     32_767 - rec
                 } else if f <= 2 && rng.chance(self.cfg.p_boundary as u64, 100) {
                     let per_slot = match rng.below(10) {
@@ -634,7 +674,7 @@ impl Gen {
                 } else {
                     rng.range(1, 50) as u32
                 };
-                Op::CycleSlot { x, n, k: self.key(), val }
+                Op::CycleSlot { x, n, k: k_new, val }
             }
             K::TreeMacro => {
                 let shape = rng.below(6) as u8;
